@@ -203,6 +203,79 @@ def mnemonic_sequences(ctx, cs, report):
 
 
 # ------------------------------------------------------------------------------------------------
+# from_mnemonic acceptance for every input form
+# ------------------------------------------------------------------------------------------------
+
+def mnemonic_forms(ctx, cs, report):
+    """Key.from_mnemonic(validate=True) for the mnemonic given as str, list, tuple, and through Key.from_faucet (dict and JSON
+    file, words as a list) x validity (valid, one word changed, order changed, unknown word, one word less / more): accepted
+    exactly when the BIP-39 rule (integer reference) holds. A tuple is outside the documented argument type (the unchanged code
+    refuses every tuple with TypeError), so for tuples only `never accepted when invalid` is demanded."""
+    import json
+    import os
+    import tempfile
+    import unicodedata
+    from pytezos.crypto.key import Key
+    rng = ctx.rng
+    wl = ck._mnemonic().wordlist
+    for nwords in ((12, 15, 24) if not ctx.thorough else (12, 15, 18, 21, 24, 12, 24)):
+        words = valid_mnemonic(rng, nwords)
+        variants = [('valid', list(words))]
+        w = list(words)
+        i = rng.randrange(len(w))
+        w[i] = rng.choice([x for x in wl if x != w[i]])
+        variants.append(('one-word-changed', w))
+        w = list(words)
+        i, j = rng.sample(range(len(w)), 2)
+        w[i], w[j] = w[j], w[i]
+        variants.append(('order-changed', w))
+        w = list(words)
+        w[rng.randrange(len(w))] = rng.choice(['tezos', 'zzz', 'Abandon'])
+        variants.append(('unknown-word', w))
+        variants.append(('one-word-less', list(words[:-1])))
+        variants.append(('one-word-more', list(words) + [rng.choice(wl)]))
+        variants.append(('three-words-less', list(words[:-3])))
+        for kind, ws in variants:
+            want = ck.ref_bip39_valid(unicodedata.normalize('NFKD', ' '.join(ws)).split(' '))
+            pw, email = rng.choice([('', ''), ('pw', 'a@b.c')])
+            # what the key would be if the words were taken as they are (so that from_faucet's pkh comparison cannot hide anything)
+            ref_pub = ck.ref_public_point(b'ed', ck.ref_mnemonic_secret(' '.join(ws), pw, email))
+            pkh = ck.ref_pkh(b'ed', ref_pub) if ref_pub is not None else None
+            faucet = {'mnemonic': list(ws), 'password': pw, 'email': email, 'activation_code': 'ab' * 20, 'pkh': pkh}
+            forms = [('str', lambda: Key.from_mnemonic(' '.join(ws), passphrase=pw, email=email)),
+                     ('list', lambda: Key.from_mnemonic(list(ws), passphrase=pw, email=email)),
+                     ('tuple', lambda: Key.from_mnemonic(tuple(ws), passphrase=pw, email=email))]
+            if pkh is not None:
+                forms.append(('faucet-dict', lambda: Key.from_faucet(dict(faucet))))
+                if kind in ('valid', 'order-changed') or ctx.thorough:
+                    def from_file():
+                        fd, path = tempfile.mkstemp(suffix='.json', prefix='c08-faucet-')
+                        try:
+                            with os.fdopen(fd, 'w') as f:
+                                json.dump(faucet, f)
+                            return Key.from_faucet(path)
+                        finally:
+                            os.unlink(path)
+                    forms.append(('faucet-file', from_file))
+            for form, f in forms:
+                ok, k = lib.call(f)
+                ctx.case(('fm-form', form, tuple(ws), pw, email), nontrivial=True, kind=f'from_mnemonic-form:{form}:{kind}:{"accepted" if ok else type(k).__name__}')
+                bad = (ok and not want) or (not ok and want and form != 'tuple')
+                if bad:
+                    arg = {'str': repr(' '.join(ws)), 'list': repr(list(ws)), 'tuple': repr(tuple(ws))}.get(form)
+                    repro = (f"Key.from_mnemonic({arg}, passphrase={pw!r}, email={email!r})" if arg else f"Key.from_faucet({faucet!r})")
+                    report(f'from_mnemonic ({form} form, validate=True) {"accepts" if ok else "rejects"} a mnemonic whose BIP-39 checksum / word count is '
+                           f'{"invalid" if ok else "valid"} ({kind})',
+                           {'form': form, 'kind': kind, 'words': list(ws), 'passphrase': pw, 'email': email, 'bip39_valid': want,
+                            'observed': k.public_key_hash() if ok else repr(k), 'repro': repro})
+            # (A) the list and str forms under the recorder
+            if kind in ('valid', 'order-changed', 'one-word-less') or ctx.thorough:
+                a_from_mnemonic(cs, list(ws), pw, email, True, b'ed', f'form-list-{kind}')
+                if ctx.thorough:
+                    a_from_mnemonic(cs, ' '.join(ws), pw, email, True, b'ed', f'form-str-{kind}')
+
+
+# ------------------------------------------------------------------------------------------------
 # run
 # ------------------------------------------------------------------------------------------------
 
@@ -216,7 +289,7 @@ def run(ctx: lib.Ctx) -> None:
                 'ASCII, multi-byte UTF-8 incl. astral, bytes, lone surrogate) with random salts, import with the right / wrong / missing passphrase and of '
                 'damaged texts (checksum, truncation, foreign prefix, re-labelled payload); mnemonics of 12..24 words: valid, one word / one bit changed, '
                 'order changed, unknown word, wrong count, spacing and normalisation variants; from_mnemonic with str and list input x passphrase x email x '
-                'validate x curve; sequences of from_mnemonic calls in one process sharing part of (mnemonic, passphrase, email), each compared with an independent derivation. non-trivial = the operation succeeded or the text has >= 12 words; distinct = distinct (operation, arguments).')
+                'validate x curve; sequences of from_mnemonic calls in one process sharing part of (mnemonic, passphrase, email), each compared with an independent derivation; from_mnemonic acceptance for str / list / tuple / from_faucet(dict, file) x valid / one word changed / order changed / unknown word / wrong count against the integer BIP-39 reference. non-trivial = the operation succeeded or the text has >= 12 words; distinct = distinct (operation, arguments).')
     ctx.assumptions.append(
         'native cryptography (key derivation of libsodium / libsecp256k1 / fastecdsa / py_ecc, blake2b, sha256, pbkdf2, secretbox, base58check, the mnemonic '
         "package's NFKD normalisation, word list and to_seed) is trusted: the theorems assume of it exactly the laws `store_laws` / `b58_laws`; in the "
@@ -396,6 +469,7 @@ def run(ctx: lib.Ctx) -> None:
                 a_from_mnemonic(cs, ' '.join(bad_words), 'pw', '', False, curve, 'order-changed-novalidate')
             a_from_mnemonic(cs, words, '', '', True, rng.choice([b'xx', b'']), 'unknown-curve')
     mnemonic_sequences(ctx, cs, report)
+    mnemonic_forms(ctx, cs, report)
     for text in ['', ' ', 'abandon', 'abandon ' * 11 + 'about', 'abandon ' * 12, ('zoo ' * 11 + 'wrong'), ('zoo ' * 23 + 'vote'), 'legal winner thank year wave sausage worth useful legal winner thank yellow']:
         acc = a_validate(cs, text.strip(' ') if text.strip(' ') else text, 'fixed')
 
